@@ -217,18 +217,28 @@ static uint64_t g_limit_hits = 0;
 // (injected fault or request above g_alloc_limit = "cannot be satisfied")
 static inline uint64_t alloc_failures() { return g_faults_hit + g_limit_hits; }
 static void (*g_alloc_hook)(char kind, void *p, size_t sz) = nullptr; // C06 yields
+// Scale runs: requests in (g_alloc_limit, g_big_alloc_max] are satisfied by anonymous MAP_NORESERVE mappings that are
+// never touched unless the library touches them (containers of 2^32 and more elements without the memory)
+static size_t g_big_alloc_max = 0;
+static std::unordered_set<void *> *g_bigs;
+static void *big_map(size_t sz)
+{
+    void *p = mmap(nullptr, sz, PROT_READ | PROT_WRITE, MAP_PRIVATE | MAP_ANONYMOUS | MAP_NORESERVE, -1, 0);
+    return p == MAP_FAILED ? nullptr : p;
+}
 
 static void alloc_init()
 {
     if (!g_live) {
         g_live = new std::unordered_map<void *, size_t>();
         g_events = new std::vector<AllocEv>();
+        g_bigs = new std::unordered_set<void *>();
     }
 }
 static bool should_fail(size_t sz)
 {
     uint64_t ord = g_alloc_ordinal++;
-    if (sz > g_alloc_limit) { g_limit_hits++; return true; }
+    if (sz > g_alloc_limit && !(g_big_alloc_max && sz <= g_big_alloc_max)) { g_limit_hits++; return true; }
     if (ord >= g_fail_from) { g_faults_hit++; return true; }
     if (!g_fail_ordinals.empty() &&
         std::binary_search(g_fail_ordinals.begin(), g_fail_ordinals.end(), ord)) {
@@ -281,7 +291,8 @@ void *__wrap_malloc(size_t sz)
     void *p = nullptr;
     if (g_alloc_hook) g_alloc_hook('m', nullptr, sz);
     if (!should_fail(sz)) {
-        p = __real_malloc(sz);
+        if (sz > g_alloc_limit) { p = big_map(sz); if (p) g_bigs->insert(p); }
+        else p = __real_malloc(sz);
         if (p) (*g_live)[p] = sz;
     }
     if (g_record_events) g_events->push_back({p ? 'm' : 'x', p, sz});
@@ -316,16 +327,29 @@ void *__wrap_realloc(void *old, size_t sz)
         // realloc(p, 0): implementation-defined; model it as free + NULL (what
         // ASan's allocator does) so the accounting stays exact.
         if (old) {
+            size_t osz = (*g_live)[old];
             g_live->erase(old);
             if (g_record_events) g_events->push_back({'f', old, 0});
-            __real_free(old);
+            if (g_bigs->count(old)) { munmap(old, osz); g_bigs->erase(old); } else __real_free(old);
             in_lib = save;
             return nullptr;
         }
         sz = 1;
     }
     if (!should_fail(sz)) {
-        p = __real_realloc(old, sz);
+        bool oldbig = old && g_bigs->count(old), newbig = sz > g_alloc_limit;
+        size_t oldsz = old ? (*g_live)[old] : 0;
+        if (!oldbig && !newbig) p = __real_realloc(old, sz);
+        else if (oldbig && newbig) {
+            p = mremap(old, oldsz, sz, MREMAP_MAYMOVE);
+            if (p == MAP_FAILED) p = nullptr; else { g_bigs->erase(old); g_bigs->insert(p); }
+        } else if (newbig) {
+            p = big_map(sz);
+            if (p) { if (old) { memcpy(p, old, oldsz); __real_free(old); } g_bigs->insert(p); }
+        } else {
+            p = __real_malloc(sz);
+            if (p) { memcpy(p, old, sz < oldsz ? sz : oldsz); munmap(old, oldsz); g_bigs->erase(old); }
+        }
         if (p) {
             if (old) g_live->erase(old);
             (*g_live)[p] = sz;
@@ -344,9 +368,10 @@ void __wrap_free(void *p)
     if (g_alloc_hook) g_alloc_hook('f', p, 0);
     if (!lib_is_live(p))
         verif_fail("alloc.free_foreign", "library free()s %p which it did not allocate or already freed", p);
+    size_t fsz = (*g_live)[p];
     g_live->erase(p);
     if (g_record_events) g_events->push_back({'f', p, 0});
-    __real_free(p);
+    if (g_bigs->count(p)) { munmap(p, fsz); g_bigs->erase(p); } else __real_free(p);
     in_lib = save;
 }
 
@@ -384,10 +409,10 @@ template <class F> static bool may_abort(F &&f)
 // or at the end of a case) so that cases stay independent
 static void lib_release_all()
 {
-    std::vector<void *> v;
-    for (auto &kv : *g_live) v.push_back(kv.first);
+    std::vector<std::pair<void *, size_t>> v;
+    for (auto &kv : *g_live) v.push_back(kv);
     g_live->clear();
-    for (void *p : v) __real_free(p);
+    for (auto &kv : v) { if (g_bigs->count(kv.first)) { munmap(kv.first, kv.second); g_bigs->erase(kv.first); } else __real_free(kv.first); }
 }
 
 static void case_reset()
@@ -405,6 +430,7 @@ static void case_reset()
     g_cur_op = "";
     g_deferred_abandon = nullptr;
     g_also_ours.clear();
+    g_big_alloc_max = 0;
     events_clear();
     if (!g_live->empty()) lib_release_all();
 }
